@@ -127,7 +127,7 @@ pub fn run_c12(tier: Tier) -> ! {
         }
         t.per_world.push(json!({"world": label, "states": st.states, "transitions": st.transitions, "depth_completed": st.depth_completed, "closed": st.closed}));
     }
-    finish_r(t, "C12", tier, json!({"reactive_worlds": n_r, "hsa": tier.pick("2..=7", "2..=10 and 126"), "gap_factors": tier.pick(vec![1, 2], vec![1, 2, 5]), "join_budget": tier.pick(1, 2)}), vec!["c12_gap_poll", "c12_post_claim_scan_complete", "c12_new_successor_gets_token", "c12_new_sweep_after_pause", "c12_reply_not_ready", "c12_reply_ready", "c12_reply_in_ring"])
+    finish_r(t, "C12", tier, json!({"reactive_worlds": n_r, "hsa": tier.pick("2..=7", "2..=10 and 126"), "gap_factors": tier.pick(vec![1, 2], vec![1, 2, 5]), "join_budget": tier.pick(1, 2)}), vec!["c12_successor_learnt_from_witnessed_pass", "c12_gap_poll", "c12_post_claim_scan_complete", "c12_new_successor_gets_token", "c12_new_sweep_after_pause", "c12_reply_not_ready", "c12_reply_ready", "c12_reply_in_ring"])
 }
 
 fn finish_r(t: Totals, prop: &str, tier: Tier, bounds: Value, witnesses: Vec<&'static str>) -> ! {
@@ -200,8 +200,15 @@ pub fn run_c15(tier: Tier) -> ! {
                 if tier == Tier::Quick && !members0.is_empty() && (a.len() + b.len()) % 2 == 1 {
                     continue;
                 }
-                let cfg = RCfg { ts, hsa: 6, gap_factor: 10, slot_bits: 100, ttr: None, period_div: 8, members0: members0.clone(), scripts: vec![a.clone(), b.clone()], multi: true, mon: RMon::C15, max_visits: 6, join_budget: 0 };
-                cfgs.push((format!("2apps {:?}/{:?} ring{:?}", a, b, members0), cfg, 12, 20.0, 200_000));
+                for ttr in [None, Some(256u32)] {
+                    // with the minimum target rotation time the token is always late: only the one
+                    // high-priority message cycle per visit runs
+                    if ttr.is_some() && tier == Tier::Quick && (a.len() + b.len()) < 3 {
+                        continue;
+                    }
+                    let cfg = RCfg { ts, hsa: 6, gap_factor: 10, slot_bits: 100, ttr, period_div: 8, members0: members0.clone(), scripts: vec![a.clone(), b.clone()], multi: true, mon: RMon::C15, max_visits: if ttr.is_some() { 8 } else { 6 }, join_budget: 0 };
+                    cfgs.push((format!("2apps {:?}/{:?} ring{:?} ttr{:?}", a, b, members0, ttr), cfg, 12, 20.0, 200_000));
+                }
             }
         }
         // three applications: scripts up to length 1 (thorough 2 for one of them)
